@@ -153,6 +153,12 @@ def run(ck):
                     sample={"crystal": label, "G": len(crys.G), "D": D.tolist(), "spread": spread} if nfl <= 2 else None)
             doc["D"] = D.tolist()
             check_tensor(ck, "interstitial D", D, crys, True, tol, doc, "c03-D")
+            # the diffusivity returned alongside the elastodiffusion tensor is the same tensor (symmetric, PSD, invariant)
+            doc["D_from_elastodiffusion"] = D2.tolist()
+            check_tensor(ck, "D returned by elastodiffusion()", D2, crys, True, tol, doc, "c03-D-elasto")
+            if np.abs(D2 - D).max() > max(tol, 1e-9) * 10 * max(np.abs(D).max(), 1e-300):
+                ck.violation("elastodiffusion() returns a diffusivity that differs from diffusivity() by %.3g relative"
+                             % (np.abs(D2 - D).max() / max(np.abs(D).max(), 1e-300)), doc, key="c03-D-elasto-differs")
             # elastodiffusion: symmetric in (ab) and (cd), invariant as a rank-4 tensor
             sc = max(np.abs(dD).max(), 1e-300)
             e1 = np.abs(dD - dD.transpose(1, 0, 2, 3)).max(); e2 = np.abs(dD - dD.transpose(0, 1, 3, 2)).max()
